@@ -59,7 +59,7 @@ fn worker_main(cfg: &Cfg, mut w: Worker) -> ! {
             corpus::for_each_grammar(&slices, &mut w, &mut stats, |p, st| c12::check_grammar(p, &known, st, max_calls));
         }
         "C15" => {
-            let slices = corpus::standard(cfg.quick(), scale - 1);
+            let slices = corpus::standard(cfg.quick(), if cfg.quick() { scale - 2 } else { scale - 1 });
             corpus::for_each_grammar(&slices, &mut w, &mut stats, |p, st| c15::check_grammar(p, &known, st));
         }
         o => {
